@@ -92,6 +92,101 @@ def clause_hydration(prog, rep):
                       "%s:%s" % (f.file, s.get("line")))
 
 
+PARSERS = ("parse", "from_str", "from_str_radix", "from_hex")
+UNWRAPPERS = ("ok", "branch", "unwrap", "expect", "unwrap_or_default", "ok_or", "ok_or_else", "map_err", "unwrap_or", "into_inner")
+
+
+def _sources(prog, f, local):
+    """copy provenance that also looks through Result/Option plumbing (`.ok()?`, `?`, unwrap)"""
+    calls, params, seen, todo = [], [], set(), [local]
+    while todo:
+        l = todo.pop()
+        if l in seen:
+            continue
+        seen.add(l)
+        pr = A.producers(prog, f, l, scope=set(), max_frames=0)
+        params += pr["params"]
+        for c in pr["calls"]:
+            if c.name in UNWRAPPERS and c.krate in ("core", "std", "alloc") and c.args and "p" in c.args[0]:
+                todo.append(c.args[0]["p"][0])
+            else:
+                calls.append(c)
+    return calls, params
+
+
+def clause_hydration_sources(prog, rep):
+    """a hydrated field that is not a placeholder must come from the channel the creating side wrote it to: the snapshot name
+    (parsed) or the group id it was listed under — never from the row's own creation time or another unrelated column"""
+    mgr = [f for f in prog.nontest_fns(("mdk_core",)) if last_seg(f.self_adt) == "EpochSnapshotManager" or (f.is_closure() and "EpochSnapshotManager" in f.root)]
+    n = 0
+    for f in mgr:
+        if any(K.is_storage_trait_call(c, "create_group_snapshot") for c in f.live_calls()):
+            continue
+        for bb, s in f.aggregates("EpochSnapshot"):
+            if not s.get("fields"):
+                continue
+            for fld in ("epoch", "applied_commit_id", "applied_commit_ts", "snapshot_name", "group_id"):
+                o = A.agg_field_operand(s, fld)
+                if o is None or "p" not in o:
+                    continue
+                calls, params = _sources(prog, f, o["p"][0])
+                n += 1
+                bad = [c.name for c in calls if c.name not in PARSERS]
+                badp = []
+                for g, l in params:
+                    ty = g.locals[l]
+                    if not ("str" in ty or "String" in ty or "GroupId" in ty):
+                        badp.append("%s: %s" % (dict((v, k) for k, v in [(nm, pl[0]) for nm, pl in g.debug if len(pl) == 1]).get(l, "arg%d" % l), ty))
+                rep.check(not bad and not badp, "hydration-coverage", "EpochSnapshot.%s/source" % fld,
+                          "hydrated %s is parsed from the persisted name / taken from the listed group id" % fld,
+                          "hydrated EpochSnapshot.%s is taken from %s — a value the snapshot's creator never wrote there (e.g. the row's creation time): "
+                          "after a restart the race decision is made against a wrong incumbent" % (fld, ", ".join(bad + badp)),
+                          "%s:%s" % (f.file, s.get("line")))
+    rep.floor("hydration-coverage", "hydrated fields with a non-constant source", n, 4)
+
+
+REMOVERS_RETURNING = ("pop_front", "pop_back", "split_off", "remove", "drain", "swap_remove_back", "swap_remove_front")
+REMOVERS_SILENT = ("truncate", "clear", "retain", "retain_mut", "resize", "resize_with")
+
+
+def clause_queue_storage_agreement(prog, rep):
+    """the in-memory queue is a cache of the stored snapshots: whatever leaves the queue is released (or consumed by a rollback)
+    in storage, otherwise the stored set and the queue differ and a restart re-hydrates snapshots the running process had dropped"""
+    mgr = [f for f in prog.nontest_fns(("mdk_core",)) if last_seg(f.self_adt) == "EpochSnapshotManager" or (f.is_closure() and "EpochSnapshotManager" in f.root)]
+    n = 0
+    for f in mgr:
+        stor = [c for c in f.live_calls() if K.is_storage_trait_call(c, "release_group_snapshot") or K.is_storage_trait_call(c, "rollback_group_to_snapshot")]
+        fed = set()
+        released_in_place = []     # releases naming entries read in place (iter / index), e.g. before a truncate
+        for rl in stor:
+            if "p" in rl.args[-1]:
+                og = A.origins(prog, f, rl.args[-1]["p"][0], scope=None, max_frames=0)
+                if og.has_call(lambda x: last_seg(x.self_adt) == "VecDeque" and x.name in ("iter", "iter_mut", "range", "range_mut", "get", "index", "back", "front")):
+                    released_in_place.append(rl)
+                for c in f.live_calls():
+                    if c.name in REMOVERS_RETURNING and og.has_call(lambda x, c=c: x is c or (x.bb == c.bb and x.name == c.name)):
+                        fed.add(c.bb)
+        for c in f.live_calls():
+            if last_seg(c.self_adt) != "VecDeque" or "EpochSnapshot" not in " ".join(c.gen or []) + (c.self_ty or ""):
+                continue
+            if c.name in REMOVERS_SILENT:
+                n += 1
+                if any(c.bb in f.reachable_from(rl.bb) for rl in released_in_place):
+                    rep.ok("queue-storage-agreement", "%s/%s" % (f.label(), c.name),
+                           "the entries dropped by VecDeque::%s were released in storage while still in the queue" % c.name, c.loc())
+                    continue
+                rep.violation("queue-storage-agreement", "%s/%s" % (f.label(), c.name),
+                              "entries are dropped from the snapshot queue with VecDeque::%s without releasing them in storage: the stored set "
+                              "and the queue diverge, and a restart re-hydrates snapshots the running process no longer knows" % c.name, c.loc())
+            elif c.name in REMOVERS_RETURNING:
+                n += 1
+                rep.check(c.bb in fed, "queue-storage-agreement", "%s/%s" % (f.label(), c.name),
+                          "what VecDeque::%s takes out of the queue is released / consumed in storage" % c.name,
+                          "entries taken out of the snapshot queue by VecDeque::%s never reach release_group_snapshot / rollback_group_to_snapshot: "
+                          "they stay in storage and are re-hydrated after a restart" % c.name, c.loc())
+    rep.floor("queue-storage-agreement", "removals from the snapshot queue", n, 3)
+
+
 def clause_self_update_mapping(prog, rep):
     """SelfUpdateState <-> last_self_update_at: 0 <-> Required in save and load"""
     sg = prog.find(adt="MdkSqliteStorage", name="save_group", trait="GroupStorage")
@@ -145,9 +240,13 @@ def run(ctx, rep):
     rep.fns_analysed = len(K.core_scope(prog))
     rep.clause("C11.1 inventory: the only interior-mutable in-memory state reachable from MDK<_> (besides the storage) is EpochSnapshotManager.inner")
     rep.clause("C11.2 hydration coverage: every EpochSnapshot field read by the race decision or rollback is reconstructed from persisted data, not a constant")
+    rep.clause("C11.2b a hydrated field that is not a placeholder is parsed from the persisted snapshot name (or is the listed group id), never another column such as the row's creation time")
+    rep.clause("C11.2c queue/storage agreement: every removal from the in-memory snapshot queue is paired with a storage release or is the snapshot consumed by the storage rollback")
     rep.clause("C11.3 persisted enum/column round-trip tables (decided under C10); SelfUpdateState 0<->Required mapping identical in save and load")
     rep.clause("C11.4 build() prunes only when persistent (decided under C20)")
     rep.not_decided = "equivalence of runs with and without restarts; migration idempotence (refinery bookkeeping at run time)"
     clause_inventory(prog, rep)
     clause_hydration(prog, rep)
+    clause_hydration_sources(prog, rep)
+    clause_queue_storage_agreement(prog, rep)
     clause_self_update_mapping(prog, rep)
